@@ -86,6 +86,11 @@ CHECKS = {
    "Every input of the stated domains is judged by the standard deserializer for its carrier: refused -> 4xx with a framework-format error body and no handler run; accepted -> 200 with the reference value echoed. Never 5xx, never a missing response.",
    "FromStr / serde_urlencoded / serde_json as reference decoders; non-finite float spellings are not judged",
    "DESIGN.md section 4/C10"),
+ "C11": ("E2-live", "exploration",
+   "bounded-exhaustive enumeration of (server default x endpoint override x extractor) configurations x body lengths across the limit x framings (content-length, one chunk, every composition into 2-3 chunks near the limit / everywhere in the thorough tier, paced streaming) on live servers",
+   "For every configuration and every body length n in 0..=L+8 plus far-over sizes: n <= L is accepted and delivered intact with the handler reporting effective limit L, n > L is refused with 4xx, and no handler ever reports a running byte total above L.",
+   "one chunk = one body frame when the request is one write < 8 KiB (measured and reported); multipart bodies have a minimum size",
+   "DESIGN.md section 4/C11"),
 }
 
 NOT_YET = {
@@ -126,7 +131,7 @@ def main():
       "engines": [
         {"name": "E1", "path": "harness/src/e1.rs + harness/src/bin/e1.rs", "serves_properties": ["C01","C02","C04","C06"], "kind_free_text": "stateless explicit exploration of registration histories on the real ApiDescription/HttpRouter"},
         {"name": "E3", "path": "harness/src/live.rs + harness/src/e3.rs + harness/src/bin/e3.rs", "serves_properties": ["C16","C17","C18"], "kind_free_text": "live event explorer: real HttpServer on loopback, raw TCP client, gated handlers, in-memory slog drain; stateless replay of every history"},
-        {"name": "E2", "path": "harness/src/bin/c03.rs c05.rs ...", "serves_properties": ["C03","C05","C09","C10","C12","C13","C14","C15","C20"], "kind_free_text": "bounded-exhaustive input enumeration against reference functions, on the real public functions"},
+        {"name": "E2", "path": "harness/src/bin/c03.rs c05.rs ...", "serves_properties": ["C03","C05","C09","C10","C11","C12","C13","C14","C15","C20"], "kind_free_text": "bounded-exhaustive input enumeration against reference functions, on the real public functions"},
       ],
       "checks": checks,
       "not_applicable": na,
